@@ -18,7 +18,7 @@ import re
 import time
 import traceback
 
-from .errors import AnalysisError
+from .errors import AnalysisError, FormNotRecognised
 
 VERIF = os.path.dirname(os.path.dirname(os.path.abspath(__file__)))
 KNOWN_FILE = os.path.join(VERIF, "known_findings.json")
@@ -27,20 +27,21 @@ RULES = {}  # id -> Rule
 
 
 class Rule:
-    def __init__(self, rid, props, template, floor, fn, doc, tier):
+    def __init__(self, rid, props, template, floor, fn, doc, tier, fallback=()):
         self.id, self.props, self.template, self.floor, self.fn = rid, tuple(props), template, floor, fn
         self.doc = doc
         self.tier = tier
+        self.fallback = tuple(fallback)
 
 
-def rule(rid, props, template, floor=1, tier="quick"):
+def rule(rid, props, template, floor=1, tier="quick", fallback=()):
     """Register a rule.  ``floor``: minimum number of obligations the rule must examine on a
     tree where its anchors exist (instance floor; below it the run is an ANALYSIS-ERROR)."""
 
     def deco(fn):
         if rid in RULES:
             raise RuntimeError(f"duplicate rule id {rid}")
-        RULES[rid] = Rule(rid, props, template, floor, fn, (fn.__doc__ or "").strip(), tier)
+        RULES[rid] = Rule(rid, props, template, floor, fn, (fn.__doc__ or "").strip(), tier, fallback)
         return fn
 
     return deco
@@ -194,6 +195,9 @@ class Run:
                     raise AnalysisError(
                         f"rule {r.id} examined {ctx.obligations} obligations, below its confirmed floor {r.floor}"
                     )
+            except FormNotRecognised as ex:
+                err = f"{ex}"
+                ctx.form_not_recognised = True
             except AnalysisError as ex:
                 err = f"{ex}"
             except RecursionError as ex:  # pragma: no cover
@@ -201,6 +205,16 @@ class Run:
             except Exception as ex:  # analyser defect: never a silent pass, never a VIOLATION
                 err = f"analyser crashed in {r.id}: {ex!r}\n{traceback.format_exc(limit=8)}"
             self.results.append((r, ctx, err))
+        # shape-specific rules that met another shape: deferred to their shape-independent fallbacks, if those ran and held
+        by_id = {r.id: (r, c, e) for r, c, e in self.results}
+        for i, (r, ctx, err) in enumerate(self.results):
+            if err and getattr(ctx, "form_not_recognised", False) and getattr(r, "fallback", ()):
+                fbs = [by_id.get(fid) for fid in r.fallback]
+                if all(fb is not None and fb[2] is None for fb in fbs):
+                    ctx.notes.append(f"deferred to {', '.join(r.fallback)} (shape-independent): {err}")
+                    ctx.deferred = True
+                    ctx.violations = []  # verdicts of a model that does not fit the code's shape are not trusted
+                    self.results[i] = (r, ctx, None)
         return self
 
     # -- summary
@@ -249,7 +263,8 @@ def finish(run: Run, level_text, assumptions, undecided, extra=None, out=print, 
             "obligations": c.obligations, "discharged": c.discharged, "cases": c.evaluations, "paths": c.paths,
             "floor": r.floor,
             "verdict": "analysis-error" if err else ("violation" if any(v.rule == r.id for v, _ in new) else
-                                                       ("known-finding" if c.violations else "holds")),
+                                                       ("known-finding" if c.violations else
+                                                        ("deferred" if getattr(c, "deferred", False) else "holds"))),
             **({"error": err} if err else {}),
             **({"notes": c.notes} if c.notes else {}),
         })
@@ -308,7 +323,8 @@ def finish(run: Run, level_text, assumptions, undecided, extra=None, out=print, 
 
     new_rules = {v.rule for v, _ in new}
     for r, c, err in run.results:
-        verdict = "ERROR" if err else ("VIOLATION" if r.id in new_rules else ("known-finding" if c.violations else "holds"))
+        verdict = "ERROR" if err else ("VIOLATION" if r.id in new_rules else ("known-finding" if c.violations else
+                                                                                 ("deferred (see notes)" if getattr(c, "deferred", False) else "holds")))
         out(f"  {r.id:8s} {r.template:7s} obligations={c.obligations:<5d} cases={c.evaluations:<6d} {verdict}")
     seen_known = set()
     for v, k in matched:
